@@ -119,6 +119,9 @@ def run(ctx):
         ctx.unrecognised("C06.identity", "C06.identity:no-conflict", w.where(f), str(e))
     from . import C07 as _C07
     _C07.auth_diff_operand(ctx, w, "C06.orders", "C06.orders:auth-diff-operand")
+    # the creator cache is shared by all keys of the graph, which are visited in hash order: the sort key of an event must not depend on
+    # whether the cache happened to be filled before it was computed
+    _C07.power_level_scan(ctx, w, "C06.creator-cache")
     from . import controls
     controls.order(ctx, "C06.sites")
     ctx.assumptions += ["HashMap/HashSet/BinaryHeap semantics; Ord of Int, MilliSecondsSinceUnixEpoch and event ids is total",
